@@ -14,3 +14,4 @@ import Resvg.Props.C02
 #print axioms Resvg.Props.C02.C02_old_sizes_agree_false
 #print axioms Resvg.Props.C02.C02_tile_bounded_false
 #print axioms Resvg.Props.C02.C02_tile_bounded_partial
+#print axioms Resvg.Props.C02.C02_octaves_bounded
